@@ -268,6 +268,14 @@ func C20Child(args []string) {
 		sum.Violations = append(sum.Violations, c20Viol{sig, msg})
 		mu.Unlock()
 	}
+	go mon.DeadlockMonitor(func(site, dump string) {
+		viol("C20/deadlock@"+site, "every goroutine of the workload is blocked for good, at least one of them inside the library ("+site+"); nothing left in the process can wake them: "+dump)
+		mu.Lock()
+		b, _ := json.Marshal(sum)
+		mu.Unlock()
+		fmt.Println("SUMMARY " + string(b))
+		os.Exit(0)
+	})
 	rng := rand.New(rand.NewPCG(uint64(seed), 20))
 	switch wl {
 	case "W1":
